@@ -415,6 +415,15 @@ fn edge_probes() -> Vec<(String, FileSet)> {
         t += "</xs:schema>";
         v.push((format!("edge/40-levels-of-same-named-element-and-{label}-forward"), FileSet::single("pairs.xsd", &t)));
     }
+    // character references to control characters in documentation and names (a bare CR is not
+    // normalised away when it is written as &#13;)
+    {
+        let doc = "first&#13;second&#13;&#13;third&#10;fourth&#13;&#10;fifth&#9;tab&#13;";
+        let t = format!(
+            "<xs:schema xmlns:xs=\"http://www.w3.org/2001/XMLSchema\" xmlns:t=\"urn:e\" targetNamespace=\"urn:e\"><xs:simpleType name=\"S\"><xs:annotation><xs:documentation>{doc}</xs:documentation></xs:annotation><xs:restriction base=\"xs:string\"><xs:enumeration value=\"a&#13;b\"/></xs:restriction></xs:simpleType><xs:complexType name=\"C\"><xs:annotation><xs:documentation>{doc}</xs:documentation></xs:annotation><xs:sequence><xs:element name=\"x\" type=\"t:S\"/></xs:sequence></xs:complexType><xs:element name=\"E\"><xs:annotation><xs:documentation>{doc}</xs:documentation></xs:annotation><xs:complexType><xs:annotation><xs:documentation>&#13;</xs:documentation></xs:annotation><xs:sequence/></xs:complexType></xs:element></xs:schema>"
+        );
+        v.push(("edge/control-character-references-in-documentation".to_string(), FileSet::single("cr.xsd", &t)));
+    }
     // a long chain of forward element references (one per level)
     {
         let n = 2500;
